@@ -70,13 +70,21 @@ type VerifState struct {
 }
 
 func verifRegion(r hrpc.RegionInfo) VerifRegion {
+	v := verifRegionLight(r)
+	v.Dead = r.Context().Err() != nil
+	return v
+}
+
+// verifRegionLight describes a region without asking for its context (Dead is
+// left false): a harness that wants to leave the first Context() call of a
+// region to the code under test uses it.
+func verifRegionLight(r hrpc.RegionInfo) VerifRegion {
 	v := VerifRegion{
 		Name:        string(r.Name()),
 		Table:       string(fullyQualifiedTable(r)),
 		Start:       string(r.StartKey()),
 		Stop:        string(r.StopKey()),
 		ID:          r.ID(),
-		Dead:        r.Context().Err() != nil,
 		Unavailable: r.IsUnavailable(),
 		Ptr:         r,
 	}
@@ -175,7 +183,12 @@ func (v *VerifRegionCache) Get(table, key []byte) hrpc.RegionInfo {
 }
 
 // Snapshot returns the cached regions in tree order.
-func (v *VerifRegionCache) Snapshot() []VerifRegion {
+func (v *VerifRegionCache) Snapshot() []VerifRegion { return v.snapshot(verifRegion) }
+
+// SnapshotLight is Snapshot without the dead marks (no Context() call).
+func (v *VerifRegionCache) SnapshotLight() []VerifRegion { return v.snapshot(verifRegionLight) }
+
+func (v *VerifRegionCache) snapshot(verifRegion func(hrpc.RegionInfo) VerifRegion) []VerifRegion {
 	var out []VerifRegion
 	v.krc.m.RLock()
 	defer v.krc.m.RUnlock()
